@@ -159,8 +159,16 @@ SubVals(fr, n) == IF fr.f = "wild" THEN (IF IsArr(n) THEN n.a ELSE IF IsObj(n) T
 (* "mm"  `@.ka<fa> == @.kb<fb>`: both operands multi-valued; true when SOME pair of values is equal (scalars)            *)
 (* "eqr" `@.key == $.rk`: the right operand is taken from the ROOT of the evaluation; Bind (below) copies it into the   *)
 (*       fragment (hr = the root has the member, rv = its value) before Locs runs, so that Kids needs no root argument. *)
+(* null-sensitive scripts (documented script semantics, as in spec/Script.tla: a missing path is Nothing; values of       *)
+(* different kinds are unequal; null == null; != is the complement): "eqnull" `@.k == null` a PRESENT null member,          *)
+(* "nenull" `@.k != null`, "eqnothing" `@.k == Nothing` an ABSENT member, "nenothing" `@.k != Nothing`.  (has / exists on a   *)
+(* present null member is left open by the documentation and is not in the menu.)                                          *)
 FilterTrue(f, e) ==
-  CASE f.op = "mm" -> HasKey(e, f.ka) /\ HasKey(e, f.kb) /\
+  CASE f.op = "eqnull" -> HasKey(e, f.key) /\ Member(e, f.key) = [z |-> 0]
+    [] f.op = "nenull" -> ~(HasKey(e, f.key) /\ Member(e, f.key) = [z |-> 0])
+    [] f.op = "eqnothing" -> ~HasKey(e, f.key)
+    [] f.op = "nenothing" -> HasKey(e, f.key)
+    [] f.op = "mm" -> HasKey(e, f.ka) /\ HasKey(e, f.kb) /\
                       LET A == SubVals(f.fa, Member(e, f.ka))
                           B == SubVals(f.fb, Member(e, f.kb)) IN
                       \E i \in 1..Len(A), j \in 1..Len(B) : ~IsCont(A[i]) /\ A[i] = B[j]
@@ -288,6 +296,21 @@ JudgeGet(path, root, got, distinct) ==
 
 \* the order of Get's result is completely fixed by the statement
 OrderDefined(E, path) == ~HasDesc(path) /\ \A i \in 1..Len(E) : \A p \in 1..Len(E[i].ok) : E[i].ok[p].o
+
+\* ------------------------------------------------------------------ struct representations (C11)
+(* Objects whose key set is {a}, {a,b} or {a,b,c} are held as Go structs by the struct representations of the harness.   *)
+(* The child lookup and unions of names are implemented for structs in every evaluator; wildcard, descent and filter are *)
+(* the fragments that lack a struct branch in some evaluators (known defect C11-3).  StructFrags names which of those     *)
+(* three fragment kinds the path applies to a struct-shaped object: a deviation on a struct representation is attributed *)
+(* to C11-3 only when this set is not empty; a deviation on plain child / name-union steps over structs is not.          *)
+IsStructObj(n) == IsObj(n) /\ n.k \in {<<"a">>, <<"a", "b">>, <<"a", "b", "c">>}
+StructFrags(path, root) ==
+  LET hit(j) == LET ns == Locs(SubSeq(path, 1, j - 1), root) IN
+                \E q \in 1..Len(ns) :
+                   IF path[j].f = "desc" THEN LET ds == DescNodes(ns[q].val, <<>>) IN \E d \in 1..Len(ds) : IsStructObj(ds[d].n)
+                   ELSE IsStructObj(ns[q].val)
+      has(kind) == \E j \in 1..Len(path) : path[j].f = kind /\ hit(j)
+  IN [wild |-> has("wild"), desc |-> has("desc"), filter |-> has("filter")]
 
 \* ------------------------------------------------------------------ locus of a case (DESIGN 3.2)
 Prio(f) == CASE f.f = "desc" -> 8 [] f.f = "slice" -> 7 [] f.f = "filter" -> 6 [] f.f = "union" -> 4
